@@ -131,6 +131,51 @@ class UnionSchemaGen:
             recs.insert(rng.randrange(len(recs) + 1), rng.choice(["null", "string"]))
         return recs
 
+    def same_short_name(self):
+        """named types sharing a SHORT name across namespaces in one union (records / enums / fixed; inline or by reference;
+        the namespaced one before or after the null-namespace one): a hint must be matched against the FULL name"""
+        rng = self.rng
+        short = self.fresh("S")
+        kind = rng.choice(["record", "record", "enum", "fixed"])
+        nss = [""] + rng.sample(["a", "b.c", "ns"], rng.choice([1, 2])) if rng.random() < 0.85 else rng.sample(["a", "b.c", "ns"], 2)
+        same_shape = rng.random() < 0.6
+        defs = []
+        for k, ns in enumerate(nss):
+            if ns and rng.random() < 0.5:
+                at = {"name": ns + "." + short}
+            else:
+                at = {"name": short, "namespace": ns}
+            if kind == "record":
+                fs = [{"name": "id", "type": "int"}]
+                if not same_shape and k:
+                    fs.append({"name": "t%d" % k, "type": rng.choice(["string", "long"])})
+                at.update(type="record", fields=fs)
+            elif kind == "enum":
+                at.update(type="enum", symbols=["A", "B"] if same_shape or not k else ["A", "B", "C%d" % k][k % 2:])
+            else:
+                at.update(type="fixed", size=2 if same_shape or not k else 2 + k)
+            defs.append(((ns + "." + short) if ns else short, at))
+        rng.shuffle(defs)
+        extras = rng.sample(["null", "string", "long"], rng.choice([0, 1, 2]))
+        if rng.random() < 0.4:
+            # by reference: define the types in earlier fields of a null-namespace record, refer to them by full name
+            outer = {"type": "record", "name": self.fresh("O"), "fields": []}
+            for k, (full, at) in enumerate(defs):
+                outer["fields"].append({"name": "d%d" % k, "type": at})
+            order = [full for full, _ in defs]
+            rng.shuffle(order)
+            u = order + extras
+            if rng.random() < 0.5:
+                rng.shuffle(u)
+            outer["fields"].append({"name": "u", "type": u})
+            if rng.random() < 0.4:
+                outer["fields"].append({"name": "us", "type": {"type": "array", "items": list(u)}})
+            return outer
+        u = [at for _, at in defs] + extras
+        if rng.random() < 0.5:
+            rng.shuffle(u)
+        return u
+
     def named_mix(self):
         rng = self.rng
         bs = []
@@ -218,6 +263,8 @@ class UnionSchemaGen:
                 return {"type": "map", "values": u}, fam + "/map"
             return {"type": "record", "name": self.fresh("W"), "fields": [{"name": "u", "type": u},
                                                                           {"name": "n", "type": "int", "default": 1}]}, fam + "/field"
+        if r < 0.58:
+            return self.same_short_name(), "same-short-name"
         if r < 0.65:
             return self.refs(), "refs"
         if r < 0.8:
@@ -281,18 +328,26 @@ class UDataGen(gen.DataGen):
             mode = self.mode
             if mode == "mixed":
                 mode = rng.choice(["none", "none", "tuple", "type"])
+            def spell(full):
+                """the hint as the branch's full name, or (for the closure-free modes) its bare short name / a wrong namespace"""
+                q = rng.random()
+                if self.mode == "named" or q < 0.7:
+                    return full
+                shortn = full.rsplit(".", 1)[-1]
+                return shortn if q < 0.88 else rng.choice(["zz.", "a.b.", "ns2."]) + shortn
             if mode == "tuple" and r < 0.7:
                 self.hints_made += 1
                 if rng.random() < 0.04:
                     return (rng.choice(["nope", "int", "R0", ""]), v)
-                return (branch_label(b), v)
+                lab = branch_label(b)
+                return (spell(lab) if named_branch else lab, v)
             if mode == "named" and named_branch and r < 0.7:
                 self.hints_made += 1
                 return (branch_label(b), v)
             if mode == "type" and r < 0.7 and isinstance(rb, dict) and rb["type"] == "record" and isinstance(v, dict):
                 self.hints_made += 1
                 v = dict(v)
-                v["-type"] = rb["name"] if rng.random() > 0.04 else rb["name"] + "x"
+                v["-type"] = spell(rb["name"]) if rng.random() > 0.04 else rb["name"] + "x"
                 return v
             return v
         return super().datum(s, depth)
